@@ -32,6 +32,8 @@ FILE = "LdarModel/Props/C18.lean"
 
 SIG_OMIT = "C18:accepted:omit-key"
 SIG_DUP = "C18:order:duplicate-level-file"
+SIG_VER = "C18:order:version-gate-after-minor-mismatch"
+SIG_PHKEY = "C18:placeholder-left:dictionary-key"
 
 LEVEL_DEF = {"simulation_settings": "simulation_settings", "virtual_world": "virtual_world",
              "programs": "programs", "outputs": "outputs"}
@@ -578,7 +580,12 @@ class E2E:
         self.jobs = []   # (loaded trees in given order, real outcome, meta)
 
     def run_real(self, files, meta):
-        paths, seen = self.scratch.write([f for (_, _, f) in files])
+        # now and then one of the files is a .json file (the other format read_parameter_file takes)
+        as_json = ()
+        if self.ctx.rng.random() < 0.15:
+            as_json = (self.ctx.rng.randrange(len(files)),)
+            self.ctx.count("file-format:json")
+        paths, seen = self.scratch.write([f for (_, _, f) in files], as_json=as_json)
         r = T.real_intake_paths(paths)
         self.scratch.drop_last()
         self.ctx.evaluations += 1
@@ -595,6 +602,15 @@ class E2E:
             mlc = ml if ml.startswith("reject:") or ml == "bad-op" else T.canon(json.loads(ml))
             if il != mlc:
                 ctx.disagree("intake", {"op": "intake", "files": seen, "meta": meta}, mlc[:600], il[:600])
+            elif r[0] == "ok":
+                # order-preserving comparison: the model's insertion-order logic (setKey positions,
+                # order of `programs` / `methods`, which depends on the file order) against Python's
+                ordered_impl = T.to_line(r[1])
+                ordered_model = T.to_line(json.loads(ml))
+                ctx.count("intake:key-order-compared")
+                if ordered_impl != ordered_model:
+                    ctx.disagree("intake:key-order", {"op": "intake", "files": seen, "meta": meta},
+                                 ordered_model[:600], ordered_impl[:600])
             ctx.count("intake:" + ("ok" if r[0] == "ok" else il))
         ctx.traces += len(self.jobs)
         self.scratch.close()
@@ -712,6 +728,61 @@ def e2e(ctx, defs):
                             as_input(fa, None, "duplicate-level"))
                 ctx.count("known:duplicate-level")
             ctx.nontrivial.add(("duplicate-level", lvl, T.show(ra) != T.show(rb)))
+        # (4) version gate: a file whose version must be refused (newer / legacy / major-only) together with a
+        #     file carrying a minor-mismatch or unparsable version, in every order
+        for k in range(ctx.pick(8, 80)):
+            files = gen_scenario(rng, defs, rng.choice([2, 3, 4]))
+            referenced = set()
+            for (kind, nm, f) in files:
+                if kind == "program":
+                    referenced |= set(f.get("method_labels", []))
+            idx = [i for i, (kk, nm, _) in enumerate(files) if kk != "method" or nm in referenced]
+            if len(idx) < 2:
+                continue
+            ia, ib = rng.sample(idx, 2)
+            minor = rng.choice(["4.1", "abc", "4.0.1", "4.7"])
+            bad = rng.choice(["5.0", "3.2", "4", "6.1"])
+            fs = [(kk, nm, dict(f)) for (kk, nm, f) in files]
+            fs[ia][2]["version"] = minor
+            only_minor = run.run_real(fs, {"class": "version:minor-only"})
+            ctx.count("version:minor-or-garbage-only:" + ("accepted" if only_minor[0] == "ok" else "rejected"))
+            fs[ib][2]["version"] = bad
+            accepted, rejected = [], []
+            for order in orders(rng, len(fs), ctx.pick(5, 12)):
+                r = run.run_real([fs[i] for i in order], {"class": "version-gate"})
+                (accepted if r[0] == "ok" else rejected).append(order)
+            ctx.nontrivial.add(("version-gate", minor, bad, bool(accepted), bool(rejected)))
+            if accepted:
+                ctx.violate(SIG_VER, f"a file with version {bad!r} is accepted when a file with version {minor!r} comes earlier "
+                            f"(rejected in {len(rejected)} of {len(accepted) + len(rejected)} orders)",
+                            as_input(fs, accepted[0], "version-gate"))
+                ctx.count("known:version-gate")
+        # (5) a type placeholder as program / method name ends up as a dictionary key
+        for k in range(ctx.pick(6, 40)):
+            files = gen_scenario(rng, defs, rng.choice([3, 4, None]))
+            ph = rng.choice(T.PLACEHOLDERS)
+            progs = [i for i, (kk, _, _) in enumerate(files) if kk == "program"]
+            meths = [i for i, (kk, nm, _) in enumerate(files) if kk == "method"]
+            fs = [(kk, nm, dict(f)) for (kk, nm, f) in files]
+            if meths and rng.random() < 0.5:
+                i = rng.choice(meths)
+                old = fs[i][1]
+                fs[i] = ("method", ph, dict(fs[i][2], method_name=ph))
+                for j in progs:
+                    if "method_labels" in fs[j][2]:
+                        fs[j][2]["method_labels"] = [ph if x == old else x for x in fs[j][2]["method_labels"]]
+                what = "method"
+            else:
+                i = rng.choice(progs)
+                fs[i] = ("program", ph, dict(fs[i][2], program_name=ph))
+                what = "program"
+            r = run.run_real(fs, {"class": "placeholder-key"})
+            ctx.nontrivial.add(("placeholder-key", what, ph, r[0] if r[0] == "ok" else r[1]))
+            if r[0] == "ok" and (G.has_placeholder_key(r[1]) or G.has_placeholder(r[1])):
+                ctx.violate(SIG_PHKEY if G.has_placeholder_key(r[1]) else "C18:placeholder-left",
+                            f"a {what} named like a type placeholder is accepted and the placeholder reaches the parameters as a dictionary key",
+                            as_input(fs, None, "placeholder-key"))
+                ctx.count("known:placeholder-key")
     finally:
         run.finish()
 
@@ -785,6 +856,10 @@ def replay(ctx, data):
                 for v in ctx.violations:
                     print("oracle:", v["signature"], "-", v["what"])
                 return 1 if ctx.violations else 0
+            if cls == "placeholder-key":
+                bad = r[0] == "ok" and (G.has_placeholder_key(r[1]) or G.has_placeholder(r[1]))
+                print("oracle:", "placeholder reaches the parameters" if bad else "no placeholder in the result")
+                return 1 if bad else 0
             if cls == "duplicate-level":
                 paths, _ = sc.write([f for (_, _, f) in fs[:-2] + [fs[-1], fs[-2]]])
                 r2 = T.real_intake_paths(paths)
